@@ -40,6 +40,11 @@ type SW struct {
 }
 
 func (s *SW) deliver(i int, msg sdk.Msg) chain.TxResult {
+	if m, ok := msg.(*storagetypes.MsgBuyStorage); ok && s.UpperProb > 0 && m.ForAddress != m.Creator && s.rc.Chance(0.4) {
+		// a plan paid for somebody else, the beneficiary's address written in upper case (the same account)
+		m.ForAddress = strings.ToUpper(m.ForAddress)
+		s.rc.Count("gift_purchases_with_upper_case_beneficiary", 1)
+	}
 	if s.UpperProb > 0 && s.rc.Chance(s.UpperProb) {
 		// the signer spells its own address in upper case (valid bech32, same account, same signature)
 		switch m := msg.(type) {
